@@ -1007,6 +1007,11 @@ func (e *Env) field(v Value, name string, x ast.Expr) Value {
 	}
 	sv, ok := v.(*StructV)
 	if !ok {
+		if eventRooted(x) {
+			// the event that matched the pattern is of another shape (an append of other elements, a store of another
+			// type): the clause does not talk about it
+			return e.fail("other-shape: %s is not a struct in this event", exprString(x))
+		}
 		return e.fail("selector .%s on non-struct in %s", name, exprString(x))
 	}
 	for i := 0; i < sv.T.NumFields(); i++ {
@@ -1641,4 +1646,26 @@ func (e *Env) evalBytesArg(a ast.Expr) Value {
 		}
 	}
 	return v
+}
+
+var eventArgName = regexp.MustCompile(`^[ab]r?[0-9]+$`)
+
+// eventRooted: the expression is a chain of selectors / indices / derefs over an event argument or result (a0, ar1, b2 ...).
+func eventRooted(x ast.Expr) bool {
+	for {
+		switch n := x.(type) {
+		case *ast.SelectorExpr:
+			x = n.X
+		case *ast.IndexExpr:
+			x = n.X
+		case *ast.StarExpr:
+			x = n.X
+		case *ast.ParenExpr:
+			x = n.X
+		case *ast.Ident:
+			return eventArgName.MatchString(n.Name)
+		default:
+			return false
+		}
+	}
 }
